@@ -30,7 +30,10 @@ TRUSTED = ["correspondence harness props/C18.py + props/_c18_sim.py (SimKernel: 
            "kernel rules of setpriority (can_nice/RLIMIT_NICE), ioprio_set (ioprio_check_cap), ioprio_get (effective class on >= 5.18), "
            "sched_setaffinity (cpuset clipping), do_prlimit (nr_open, CAP_SYS_RESOURCE) and the Cpus_allowed_list format transcribed in "
            "coq/C18/Kernel.v",
-           "the real C wrappers (proc.c, _psutil_posix.c) are tied to the model only by the LIVE cases"]
+           "the real C wrappers (proc.c, _psutil_posix.c) are tied to the model only by the LIVE cases",
+           "source translator props/_c18_gen.py (Python ast -> coq/Gen/C18_Tables.v; rejects every shape it does not know) and the "
+           "interpreter of the statement language coq/C18/PyGen.v (Python semantics of is None / truthiness / chained comparison / "
+           "`in` a set display / len() / list(set()) / return; LINUX taken as true; an except-OSError handler that re-raises is transparent)"]
 ASSUMPTIONS = ["Process._raise_if_pid_reused() passes (the object still denotes its process): C01/C02 own that layer",
                "the caller's uids match the target's (no EPERM from the ownership tests); capabilities are the three modelled flags",
                "scheduling policy SCHED_OTHER for the effective I/O class",
@@ -72,6 +75,14 @@ def _sim(cls, sit, req, nice=0, ioprio=0, rlim=None, extra_by=True, caps=None, n
         procs.insert(0, _proc(77, [0, 1], [0], -5, (3 << 13)))
     return {"kind": "sim", "cls": cls, "ncpu": ncpu, "nr": 64 if len(procs) == 2 else 200, "procs": procs, "pid": 4242, "req": req,
             "caps": dict(caps or S.ROOT_CAPS), "nr_open": nr_open, "ioget_eff": eff}
+
+
+def gen_tables(impl_dir, out_dir):
+    """Translate Process.nice/ionice/rlimit/cpu_affinity (psutil/__init__.py) and Process.ionice_set/rlimit
+    (psutil/_pslinux.py) of the tree under check into coq/Gen/C18_Tables.v (props/_c18_gen.py; fails closed with
+    TranslateError).  coq/C18/ProofsGen.v proves the translated programs equal to the model for all arguments."""
+    from props import _c18_gen
+    _c18_gen.write_tables(impl_dir, out_dir)
 
 
 RL_VALUES = [[0, 0], [0, 1], [1, 1], [5, INF], [INF, INF], [2 ** 63 - 1, INF], [-2, INF]]
@@ -1212,9 +1223,14 @@ MANIFEST = {
             "Name: line that looks like the key) and arbitrary text after. Four legacy theorems keep the repaired defects refuted on the old "
             "code; one theorem ties the whole model to the specification function used as the oracle, without exclusions. The model is tied to "
             "the code by running both on the same requests (simulated kernel: full finite sweeps; live kernel: child + bystander read back with "
-            "raw system calls).",
-    "note": "Trusted: Coq kernel + vm_compute; kernel rules and status format in coq/C18/Kernel.v; hand-written model coq/C18/Model.v (tied by the "
-            "correspondence run only); SimKernel and the live accessors in props/_c18_sim.py; CPython (re, set order, resource module). The real "
+            "raw system calls). Round 2: the argument checks and the dispatch are ALSO tied by translation -- props/_c18_gen.py translates the "
+            "current source of Process.nice/ionice/rlimit/cpu_affinity (__init__.py) and Process.ionice_set/rlimit (_pslinux.py) into "
+            "programs of coq/C18/PyGen.v on every run (coq/Gen/C18_Tables.v, fail-closed), and five C18_gen_* theorems prove that these "
+            "programs, continued by the model's native calls, equal the model's run_req / ionice_set / rlimit for every request, and that "
+            "_raise_if_pid_reused() precedes the platform layer exactly for the set forms (Handle.guarded).",
+    "note": "Trusted: Coq kernel + vm_compute; kernel rules and status format in coq/C18/Kernel.v; hand-written model coq/C18/Model.v (native calls, "
+            "cpu_affinity_set diagnosis, _get_eligible_cpus, wrap_exceptions: tied by the correspondence run only; the front-end methods, ionice_set "
+            "and rlimit: also by translation, trusting the translator props/_c18_gen.py and the interpreter coq/C18/PyGen.v); SimKernel and the live accessors in props/_c18_sim.py; CPython (re, set order, resource module). The real "
             "kernel's semantics are sampled by the live cases, not modelled beyond Kernel.v; the C wrappers are exercised by the live cases only. "
             "Where the property text is silent (refused sets, unknown class, scalar limits, mixed CPU lists) the oracle demands nothing; those "
             "answers are covered by theorems about the model plus the model-vs-code comparison.",
